@@ -472,7 +472,11 @@ def run(case, env):
         return rejected("runaway request starved by the harness (> %d file "
                         "operations)" % state.max_ops)
     # (4) nothing from outside in the answer
+    sent = " ".join(case["paths"] + case["extra"] + [case["body"]]).encode(
+        "utf-8", "surrogateescape")
     for token in (SECRET, SIB_REV, SIB_TEXT.strip()):
+        if token in sent:
+            continue        # the server may echo what the client itself sent
         check(token not in raw, "C31/answer-contains-content-from-outside",
               {"case": case, "token": b2s(token), "answer": b2s(raw[:300])})
     if case["verb"] in ("translate", "jail-open"):
@@ -703,7 +707,8 @@ DOUBLE = ["%252F", "..%252F", "..%252f..", "%25252F", "..%25252F", "%255C",
           "..%25252Fsecret.txt"]
 TILDE = ["~", "~user", "~evil", "~/..", "~user%2F.."]
 ODD = ["\x00", "%00", "\\", "..\\", "..\\..", "%", "%zz", " ", "a" * 300,
-       "%c0%ae%c0%ae", "%u002e%u002e", "..;", "...", ".. "]
+       "%c0%ae%c0%ae", "%u002e%u002e", "..;", "...", ".. ", "\n", "\t",
+       "\r\n", "%0A"]
 GROUPS = [PLAIN] * 9 + [ENC_DOT] * 2 + [ENC_SEP] + [DOUBLE] * 3 + \
     [TILDE] * 2 + [ODD]
 COMPS = PLAIN + ENC_DOT + ENC_SEP + DOUBLE + TILDE + ODD
@@ -780,7 +785,56 @@ def gen_case(draw, tier):
     return case
 
 
+FUZZ_RUNS = 20000
+
+
+def enum_fuzz(tier):
+    if tier != "thorough":
+        return
+    for i in range(4):
+        yield {"campaign": i}
+
+
+def run_fuzz(case, env):
+    """atheris campaign over path bytes in a child process (libFuzzer owns its
+    process); same run(), same enforcing transport."""
+    import json
+    import subprocess
+    import sys
+    root = os.path.dirname(os.path.dirname(os.path.dirname(
+        os.path.abspath(__file__))))
+    if not os.path.isdir(os.path.join(root, ".deps", "atheris")):
+        return rejected("atheris unavailable (campaign skipped)")
+    d = env.newdir("fuzz")
+    r = subprocess.run(
+        [sys.executable, "-m", "vf.lib.c31_fuzz", d,
+         str(env.seed * 100 + case["campaign"]), str(FUZZ_RUNS)],
+        cwd=root, stdout=subprocess.PIPE, stderr=subprocess.STDOUT, text=True,
+        timeout=285)
+    res = os.path.join(d, "result.json")
+    if not os.path.exists(res):
+        raise RuntimeError("fuzz child gave no result (rc=%s): %s" % (
+            r.returncode, (r.stdout or "")[-1500:]))
+    with open(res) as f:
+        data = json.load(f)
+    if data.get("skipped"):
+        return rejected("atheris unavailable (campaign skipped)")
+    if data.get("violation"):
+        return violation(data["violation"]["signature"], data["violation"])
+    if data.get("harness") or "runs" not in data:
+        raise RuntimeError("fuzz child: %s" % (str(data)[-1500:],))
+    return ok("atheris-campaign", n=max(1, data["runs"]),
+              nt=data.get("nontrivial", 0))
+
+
 def kinds(tier):
+    if tier == "thorough":
+        return _kinds(tier) + [Kind("atheris", run_fuzz, enumerate=enum_fuzz,
+                                    hash_cases=False, max_shards=4)]
+    return _kinds(tier)
+
+
+def _kinds(tier):
     return [
         Kind("interlock", run_interlock, enumerate=enum_interlock,
              hash_cases=False, max_shards=1, setup=setup, teardown=teardown),
